@@ -515,6 +515,7 @@ class VSocket:
             net.gate.connection_point()
         self.rec['addr'] = [addr[0], addr[1]]
         net.connects.append((self.rec['id'], int(self.family), addr[0], addr[1], bool(self.rec['nonblocking'])))
+        net.connect_addrs.append(tuple(addr))          # the socket address exactly as the program passed it
         return net.servers.get((addr[0], addr[1]))
 
     def connect(self, addr):
@@ -715,6 +716,8 @@ class FakeNet:
         self.client_addr = client_addr
         self.lock = threading.RLock()
         self.select_calls = 0
+        self.connect_addrs = []
+        self.scopes = {}           # IPv6 address -> scope id the resolver reports for it (link-local addresses)
         self.sock_ops = 0
         self.max_sock_ops = 500_000
         self.gate = None           # vlib.sched.Scheduler when the harness owns the interleaving
@@ -746,7 +749,7 @@ class FakeNet:
         res = []
         for af, ip in r:
             if family in (0, af):
-                addr = (ip, port) if af == socket.AF_INET else (ip, port, 0, 0)
+                addr = (ip, port) if af == socket.AF_INET else (ip, port, 0, self.scopes.get(ip, 0))
                 res.append((socket.AddressFamily(af), socket.SOCK_STREAM, 6, '', addr))
         if not res:
             raise socket.gaierror(-5, 'No address associated with hostname')
